@@ -13,7 +13,7 @@ CHECKS = {
     "C02": ("exploration", "DESIGN.md 5/C02",
             "reference-model monitor over generated set/del histories with close/reopen cycles",
             "Generated set/delete histories spanning 1..250 data files are interrupted by close/reopen cycles (1-4 in a row, configuration redrawn each time); after every reopen every key is read back and compared with the map model. Held on the histories generated.",
-            "Close = dropping the owning object. No crash (C03) and no merge (C05) in these histories."),
+            "Close = dropping the owning object. No crash (C03) and no merge (C05) in these histories. An eighth of the episodes run on a file system that returns short counts, another eighth contain sets/deletes with one injected failing call (the key may then be in either state until written again)."),
     "C05": ("exploration", "DESIGN.md 5/C05",
             "reference-model monitor around merge passes and reopen cycles, thresholds drawn to vary the selected subset",
             "Every key is read before a merge, right after it and after each of 1-3 following reopen cycles, for merges at random positions and thresholds from 8 families (all, none, fragmentation, dead bytes, small file, mixed, defaults), and compared with the map model. Held on the histories generated; the selected subsets seen are listed in the evidence.",
@@ -29,27 +29,27 @@ CHECKS = {
     "C19": ("exploration", "DESIGN.md 5/C19",
             "invariant check at quiescent points: verif_dump (index + per-file counters) vs independent scan of the data files",
             "After every few operations, every merge and every reopen the dumped index and per-file live/dead/dead-bytes counters are compared with counts derived from an independent scan of the files and with the map model. Held on the snapshots taken.",
-            "verif_dump is a read-only copy taken under the writer lock. Crash-free histories only, as the property states."),
+            "verif_dump is a read-only copy taken under the writer lock. Crash-free histories only, as the property states; an eighth of them contain sets/deletes with one injected failing call and a tenth merges with one failing call (still crash-free)."),
     "C03": ("fault_enumeration", "DESIGN.md 5/C03",
             "crash-point enumeration: every prefix of the recorded file-system calls is rebuilt and reopened by the real code, checked against the model of acknowledged operations",
             "Single-threaded episodes (set/del/get, entries above and below the write buffer, merges, reopen cycles) are recorded through the I/O shim; for every prefix of the directory-changing calls the directory is rebuilt, opened with the real code, every key compared with the map model of the operations acknowledged by then (in-flight op either way), and a continuation run. Exhaustive over kill points per recorded episode; episodes sampled.",
-            "Kill modelled at call boundaries (a single write is atomic). Shim completeness is self-checked per episode (log replay must reproduce the directory byte for byte)."),
+            "Kill modelled at call boundaries (one write call is atomic; a quarter of the episodes have short counts so that the boundary inside an entry exists; another quarter have one injected failing call before the kill). Shim completeness is self-checked per episode (log replay must reproduce the directory byte for byte)."),
     "C09": ("fault_enumeration", "DESIGN.md 5/C09",
             "power-loss state enumeration from the recorded call log: per file cut back to its last fsync, reopened by the real code, checked against the model",
             "As C03 under sync=always with fsync calls as extra cut points: at every call boundary files are cut back to (or towards) their length at the last completed fsync in several variants, the directory is opened with the real code and every acknowledged operation must read as the model says.",
-            "Failure model as stated in the property (per-file loss of any unsynced suffix, durable directory entries)."),
+            "Failure model as stated in the property (per-file loss of any unsynced suffix, durable directory entries). A quarter of the episodes contain one injected failing call (half of them inside a merge pass) before the power loss."),
     "C14": ("exploration", "DESIGN.md 5/C14",
             "rule monitor over the recorded call log (open flags, write offsets, truncate/rename/link, id monotonicity) across kill/restart chains",
             "Every call on the store directory, over chains of recorded episodes separated by kills at random call boundaries, is checked against rules R1-R6 (exclusive create, append-only, no truncate/rename/link, writes only via the creating descriptor, ids above everything the directory ever held, at most one entry beyond max_file_size).",
-            "The shim sees all directory-changing calls (self-checked). Crash points for the chains are sampled, not enumerated."),
+            "The shim sees all directory-changing calls (self-checked). Crash points for the chains are sampled, not enumerated. A quarter of the chains have one failing call per episode, another quarter short counts from write."),
     "C20": ("fault_enumeration", "DESIGN.md 5/C20",
             "fault injection at every write/create/fsync/unlink position of a plan (one rerun per position), model-based oracle with the faulted key ambiguous",
             "Each plan is rerun once per fallible call position with that call failing (ENOSPC/EIO, transient). The faulted operation must report an error, every other operation must succeed and match the model in the running process and after restart, the directory must reopen and accept further work. Exhaustive over positions per plan; plans sampled.",
-            "Faults are whole-call failures at the libc boundary (no short writes)."),
+            "Faults are whole-call failures at the libc boundary; in half of the plans the shim also returns short counts from write, so that a fault on the retry leaves a part of the entry in the file (how ENOSPC really looks). A quarter of the plans also fails read-side calls (open for reading, mmap)."),
     "C04": ("exploration", "DESIGN.md 5/C04",
             "recorded concurrent histories at the Handle boundary checked by a per-key Wing-Gong linearizability search; panic / reader-pool / stall monitors; shim-injected delays",
             "Many threads (writers, readers, deleter, merging thread) drive one store in barrier-separated segments under seeded delay injection at file-system calls; every (key, segment) history is checked for linearizability against a set/get/del register, every op runs under catch_unwind, the reader pool is inspected at every barrier and a 30 s no-progress rule catches hangs. Thorough adds a ThreadSanitizer build of the same worker. Held on the interleavings produced.",
-            "Stamps from one atomic counter taken outside the calls (can only widen intervals). Interleavings are sampled."),
+            "Stamps from one atomic counter taken outside the calls (can only widen intervals). Interleavings are sampled. A quarter of the episodes run with short counts from write (an entry reaches its file in two calls)."),
     "C07": ("exploration", "DESIGN.md 5/C07",
             "differential monitor: Frame::check / Frame::parse vs an independent i128, non-recursive reference decoder over generated, truncated, corrupted and adversarial inputs; child-process death observed",
             "Millions of inputs (grammar-generated frames with all truncations and corruptions, numbers at every buffer offset 1..64 around the 2^63/2^64 limits, random RESP-alphabet strings, nesting up to 10^6, absurd lengths under RLIMIT_AS) are fed to check and parse on a 2 MiB stack in child processes: no panic, no death, every returned frame equals the reference's with the same length, and check/parse agree on length. Thorough adds a release build (wrapping arithmetic) and a Miri pass.",
@@ -57,23 +57,23 @@ CHECKS = {
     "C08": ("exploration", "DESIGN.md 5/C08",
             "round-trip monitor over an in-memory stream that delivers exactly chosen segments; reference encoder; exhaustive two-way splits and prefixes for short encodings",
             "Generated frame sequences are written with Connection::write_frame (bytes must equal the reference encoding) and read back with Connection::read_frame under all-at-once, byte-by-byte, every two-segment split and random segmentations (same frames, then clean None); every strict prefix must be Incomplete for Frame::check and a stream ending inside a frame must give an error. Thorough repeats a reduced set under Miri.",
-            "Nested arrays are not frames the connection can write (unimplemented in write_frame)."),
+            "Nested arrays are not frames the connection can write (unimplemented in write_frame). The sink of the writer test takes everything or at most 1/7/4096/10000 bytes per write call."),
     "C06": ("exploration", "DESIGN.md 5/C06",
             "byte-exact reply-stream monitor over real TCP connections to the real server (child process): map model + reference encoder, varied segmentation and pipelining",
             "Generated SET/GET/DEL streams (arbitrary UTF-8 keys, values up to 256 KB) are sent to a child process running the real Server over a real store under one-byte / random / frame-aligned / all-at-once segmentation and pipelining depth 1..whole stream; the received bytes must equal the model's reply stream byte for byte, and the store dumped at the end must equal the model.",
-            "Receiver-side segmentation is influenced, not controlled (C08 controls it exactly). One server child per worker."),
+            "Receiver-side segmentation is influenced, not controlled (C08 controls it exactly). One server child per worker. One connection in seven half-closes its sending side before it reads."),
     "C10": ("exploration", "DESIGN.md 5/C10",
             "containment monitor: hostile streams of 14 classes on some connections while model-checked control connections run; process liveness, fresh-connection probe and store dump",
             "1-4 hostile connections (garbage, malformed and mistyped commands, truncation, nesting to 10^6, absurd lengths, handler panics) run concurrently with control connections whose every reply is checked byte for byte; afterwards the server process must be alive, a fresh connection served, and the dumped store equal the model changed only by well-formed SET/DEL.",
-            "Memory exhaustion by gigabyte streams is not attempted. The handler-panic attack uses a storage wrapper around the real handle (serve.rs)."),
+            "Memory exhaustion by gigabyte streams is not attempted. The handler-panic attack uses a storage wrapper around the real handle (serve.rs). Every eighth scenario also resets peers while they wait in the listen backlog."),
     "C11": ("exploration", "DESIGN.md 5/C11",
             "recorded client-side histories over real TCP connections checked by the per-key Wing-Gong linearizability search; timer-driven merges and shim delays inside the server",
             "2-12 client connections issue SET/GET/DEL on shared keys against a child process running the real Server whose store merges on a 5-20 ms timer; every (key, segment) history, with stamps taken at the client around send/receive, is checked for linearizability (real-time order subsumes per-connection order). Held on the interleavings produced.",
-            "Stamps taken outside send/receive only widen intervals. Interleavings are sampled."),
+            "Stamps taken outside send/receive only widen intervals. Interleavings are sampled. In a quarter of the episodes read-side failures (open/mmap of a data file) are armed in the server: a GET may then end with its connection closed, which is not a reply."),
     "C15": ("exploration", "DESIGN.md 5/C15",
             "behavioural monitor on client sockets: who gets replies while N connections are provably open; full-capacity probe after batches of connections ended in six ways",
             "Against the real Server with max_connections=N: an (N+1)-th client must not be answered while N others are open and answering, must be answered after one closes; 3N simultaneous clients are served at most N at a time; after batches of connections ended by clean close, close mid-frame, malformed command, handler-task panic, blocking-thread panic and reset, N fresh connections must all be served at once.",
-            "Negative observation (no reply in 500 ms) is never a verdict on its own. Handler panics come from a storage wrapper around the real handle."),
+            "Negative observation (no reply in 500 ms) is never a verdict on its own. Handler panics come from a storage wrapper around the real handle. Accept failures come from a 30-90 ms descriptor shortage made inside the server child (RLIMIT_NOFILE lowered, holes filled)."),
     "C16": ("exploration", "DESIGN.md 5/C16",
             "shutdown monitor: time to return of Server::run, byte streams of clients in drawn states parsed by the reference decoder, store dump vs acknowledged commands; real svr binary under SIGINT",
             "The shutdown future is completed at seeded moments while clients are idle, mid-frame, streaming commands (server writes delayed by the shim) or reading a large reply; run() must return within 15 s plus injected delays, every client stream must be whole correct replies then EOF/reset, and the store must hold every acknowledged command plus a prefix of the unacknowledged ones. Every 8th case uses the real svr binary with SIGINT and reopens the directory.",
@@ -81,11 +81,11 @@ CHECKS = {
     "C17": ("exploration", "DESIGN.md 5/C17",
             "lifecycle monitor: results of handle calls after drop, shim log by thread id, /proc thread and descriptor accounting, immediate reopen against the model",
             "Thousands of open/use/drop cycles with the merge timer far away, with merges running (delayed by the shim so drops land inside them) and with interval sync: every call through a kept handle must fail with 'closed' and cause no directory-changing call, the drop must return and the worker thread be gone promptly, the directory must open again at once with the model's contents, and threads and store descriptors must not accumulate.",
-            "Thread and descriptor accounting via /proc/self. 5 s promptness bound is wall clock with slack."),
+            "Thread and descriptor accounting via /proc/self. 5 s promptness bound is wall clock with slack. In a quarter of the quiet cycles the last operation before the drop has one injected failing call."),
     "C18": ("exploration", "DESIGN.md 5/C18",
             "timed observation of the shim's call log on an idle store: merge events and fsyncs vs policy, triggers (incl. equality boundary), interval and jitter",
             "Nine scenario kinds (never; always with nothing dead / dead bytes equal / fragmentation equal; dead bytes crossed; fragmentation crossed; window containing / excluding the current hour; interval sync) with intervals 150-400 ms and jitter 0/0.3/1.0: merges must not run where forbidden within 10 intervals and must run within interval*(1+jitter)+3 s where a trigger was crossed; fsync gaps on an idle open store stay below 2*interval+1.5 s and stop at close.",
-            "Wall-clock bounds with stated slack; a timer off by less than the slack passes."),
+            "Wall-clock bounds with stated slack; a timer off by less than the slack passes. Three quarters of the workers run in a local time zone other than UTC (TZ set per worker process)."),
 }
 
 NOT_YET = {
